@@ -476,7 +476,12 @@ class Connection(object):
 
             if not immediate and self.socket is not None:
                 # Flush any packets remaining in the queue.
-                while self._pop_packet():
+                try:
+                    while self._pop_packet():
+                        pass
+                except socket.error:
+                    # The peer is already gone, so nothing more can be
+                    # written; carry on and close our side.
                     pass
 
             if self.new_networking_thread is not None:
